@@ -3,8 +3,8 @@ package main
 // C17 — UpdateDecoder reports errors with the RFC 7606 approach they require.
 
 import (
-	"go/types"
 	"fmt"
+	"go/types"
 	"strings"
 
 	"golang.org/x/tools/go/ssa"
